@@ -52,6 +52,8 @@ type skelRec struct {
 	Toks     []string          `json:"toks"`
 	Defaults []string          `json:"defaults"` // index gap
 	Classes  []string          `json:"classes"`  // index gap
+	Zones    []string          `json:"zones"`    // index gap
+	Cats     map[string]string `json:"cats"`     // trivia kind -> category
 	Items    []string          `json:"items"`
 	Kinds    []string          `json:"kinds"`
 	Deps     []string          `json:"deps"`
@@ -61,6 +63,7 @@ type skelRec struct {
 	aux      map[string]string
 	baseDesc *descriptorpb.FileDescriptorProto
 	baseText string
+	cache    sync.Map
 }
 
 type placement struct {
@@ -169,7 +172,7 @@ func (s *skelRec) render(pl []placement) (string, int) {
 func (s *skelRec) features(pl []placement) []string {
 	set := map[string]bool{}
 	for _, p := range pl {
-		set[s.Classes[p.Gap]+"="+p.Kind] = true
+		set[s.Cats[p.Kind]+"@"+s.Zones[p.Gap]+"("+s.Classes[p.Gap]+")="+p.Kind] = true
 	}
 	out := make([]string, 0, len(set))
 	for f := range set {
@@ -331,6 +334,19 @@ func diffMode(want, got string) string {
 	return "ws-horizontal"
 }
 
+// severity groups the ways two texts can differ: the code changed, the comments changed, only the layout changed.
+func severity(mode string) string {
+	switch {
+	case strings.HasPrefix(mode, "tokens-"):
+		return "tokens"
+	case mode == "comment-lost" || mode == "comment-added" || mode == "comment-text" || mode == "comments-reordered":
+		return "comments"
+	case mode == "comment-moved" || strings.HasPrefix(mode, "ws-"):
+		return "layout"
+	}
+	return mode
+}
+
 func excerpt(want, got string) string {
 	p := 0
 	for p < len(want) && p < len(got) && want[p] == got[p] {
@@ -407,22 +423,58 @@ func stableCompile(aux map[string]string, text string) (fd *descriptorpb.FileDes
 	return protoutil.ProtoFromFileDescriptor(res[0]), nil
 }
 
+// compileFormatted compiles a formatted text with the stable compiler.  Descriptors without source info are a
+// function of the token sequence alone, so the result is remembered per token sequence (as cut by scan, whose
+// agreement with the skeleton's tokens is checked in prepare); one hit in 64 is compiled anyway and compared.
+type compiled struct {
+	fd  *descriptorpb.FileDescriptorProto
+	err error
+}
+
+func (s *skelRec) compileFormatted(text string) (*descriptorpb.FileDescriptorProto, error) {
+	key := strings.Join(project(scan(text), 't'), "\x00")
+	if v, ok := s.cache.Load(key); ok {
+		c := v.(compiled)
+		nCacheHit.Add(1)
+		h := 0
+		for i := 0; i < len(text); i++ {
+			h = h*31 + int(text[i])
+		}
+		if h&63 == 0 {
+			fd, err := stableCompile(s.aux, text)
+			nCompile.Add(1)
+			if (err == nil) != (c.err == nil) || (err == nil && !bytes.Equal(featgen.DetBytes(noSI(fd)), featgen.DetBytes(noSI(c.fd)))) {
+				harnessErrs.Add(1)
+				emit(result{Prop: "HARNESS", Class: "HARNESS:compile-cache", Skel: s.Skel, Detail: "same tokens, different compilation result: " + strconv.Quote(text)})
+			}
+		}
+		return c.fd, c.err
+	}
+	fd, err := stableCompile(s.aux, text)
+	nCompile.Add(1)
+	s.cache.Store(key, compiled{fd, err})
+	return fd, err
+}
+
 func noSI(fd *descriptorpb.FileDescriptorProto) *descriptorpb.FileDescriptorProto {
 	c := proto.Clone(fd).(*descriptorpb.FileDescriptorProto)
 	c.SourceCodeInfo = nil
 	return c
 }
 
-// descDiff: "" if equal; otherwise which top-level fields of FileDescriptorProto differ.
-func descDiff(a, b *descriptorpb.FileDescriptorProto) string {
+// descDiff compares two descriptors without source info: depOrder reports that the dependency lists are
+// permutations of each other but not equal; other names the top-level FileDescriptorProto fields that still
+// differ once the dependency lists are sorted ("" if none).
+func descDiff(a, b *descriptorpb.FileDescriptorProto) (depOrder bool, other string) {
 	ab, bb := featgen.DetBytes(noSI(a)), featgen.DetBytes(noSI(b))
 	if bytes.Equal(ab, bb) {
-		return ""
+		return false, ""
 	}
-	// dependency order only?
 	na, nb := normDeps(a), normDeps(b)
+	depOrder = strings.Join(a.Dependency, ",") != strings.Join(b.Dependency, ",") &&
+		strings.Join(na.Dependency, ",") == strings.Join(nb.Dependency, ",")
 	if bytes.Equal(featgen.DetBytes(na), featgen.DetBytes(nb)) {
-		return "dependency-order"
+		return depOrder, ""
 	}
 	fa, fb := topFields(featgen.DetBytes(na)), topFields(featgen.DetBytes(nb))
 	names := map[string]bool{}
@@ -441,7 +493,7 @@ func descDiff(a, b *descriptorpb.FileDescriptorProto) string {
 		ns = append(ns, n)
 	}
 	sort.Strings(ns)
-	return "descriptor(" + strings.Join(ns, ",") + ")"
+	return depOrder, "descriptor(" + strings.Join(ns, ",") + ")"
 }
 
 func fieldName(num protowire.Number) string {
@@ -518,6 +570,7 @@ var (
 	nEval        atomic.Int64
 	nPrint       atomic.Int64
 	nCompile     atomic.Int64
+	nCacheHit    atomic.Int64
 )
 
 func guard(what string, f func()) (msg string) {
@@ -611,8 +664,7 @@ func evaluate(s *skelRec, text, expect string, eofStart int) outcome {
 			} else if f1 != f2 {
 				o.fails["idempotence:"+pr.name] = failure{diffMode(f1, f2), excerpt(f1, f2)}
 			}
-			fd, err := stableCompile(s.aux, f1)
-			nCompile.Add(1)
+			fd, err := s.compileFormatted(f1)
 			if err != nil {
 				// is the case itself valid?
 				if _, err0 := stableCompile(s.aux, text); err0 != nil {
@@ -622,17 +674,22 @@ func evaluate(s *skelRec, text, expect string, eofStart int) outcome {
 				o.fails["meaning:"+pr.name] = failure{"formatted-does-not-compile", err.Error() + " in " + strconv.Quote(f1)}
 				continue
 			}
-			if d := descDiff(s.baseDesc, fd); d != "" {
+			if depOrder, d := descDiff(s.baseDesc, fd); depOrder || d != "" {
 				fd0, err0 := stableCompile(s.aux, text)
 				if err0 != nil {
 					o.harness = "stable compiler rejects the layout: " + err0.Error()
 					return o
 				}
-				if d0 := descDiff(s.baseDesc, fd0); d0 != "" {
+				if dep0, d0 := descDiff(s.baseDesc, fd0); dep0 || d0 != "" {
 					o.harness = "layout changes the descriptor: " + d0
 					return o
 				}
-				o.fails["meaning:"+pr.name] = failure{d, d + " after formatting to " + strconv.Quote(f1)}
+				if depOrder {
+					o.fails["deporder:"+pr.name] = failure{"dependency-order", fmt.Sprintf("dependency %q became %q", s.baseDesc.Dependency, fd.Dependency)}
+				}
+				if d != "" {
+					o.fails["meaning:"+pr.name] = failure{d, d + " after formatting to " + strconv.Quote(f1)}
+				}
 			}
 		}
 	}
@@ -734,7 +791,7 @@ func runCase(s *skelRec, lc *layRec) {
 	for _, ch := range checks {
 		if lc.ExpPl != nil {
 			f := o.fails[ch]
-			emit(result{Prop: propOf(ch), Class: ch + ":" + f.mode + ":selftest", Skel: s.Skel, Pl: pl, Min: pl, Detail: f.detail})
+			emit(result{Prop: propOf(ch), Class: ch + ":" + severity(f.mode) + ":selftest;" + f.mode, Skel: s.Skel, Pl: pl, Min: pl, Detail: f.detail})
 			continue
 		}
 		rest := pl
@@ -758,7 +815,7 @@ func runCase(s *skelRec, lc *layRec) {
 			if len(cur) == 0 {
 				feats = "default-layout(" + s.Skel + ")"
 			}
-			emit(result{Prop: propOf(ch), Class: ch + ":" + f.mode + ":" + feats, Skel: s.Skel, Pl: pl, Min: cur, Detail: f.detail})
+			emit(result{Prop: propOf(ch), Class: ch + ":" + severity(f.mode) + ":" + feats + ";" + f.mode, Skel: s.Skel, Pl: pl, Min: cur, Detail: f.detail})
 			if len(cur) == 0 {
 				break
 			}
@@ -788,7 +845,7 @@ func (s *skelRec) prepare() error {
 	for _, a := range s.Aux {
 		s.aux[a[0]] = a[1]
 	}
-	if len(s.Defaults) != len(s.Toks)+1 || len(s.Classes) != len(s.Toks)+1 {
+	if len(s.Defaults) != len(s.Toks)+1 || len(s.Classes) != len(s.Toks)+1 || len(s.Zones) != len(s.Toks)+1 {
 		return fmt.Errorf("skeleton %s: table sizes", s.Skel)
 	}
 	text, _ := s.render(nil)
@@ -945,6 +1002,6 @@ func main() {
 	}
 	close(ch)
 	wg.Wait()
-	fmt.Fprintf(os.Stderr, "STATS cases=%d evaluations=%d prints=%d compiles=%d harness=%d\n",
-		nCases.Load(), nEval.Load(), nPrint.Load(), nCompile.Load(), harnessErrs.Load())
+	fmt.Fprintf(os.Stderr, "STATS cases=%d evaluations=%d prints=%d compiles=%d compile_cache_hits=%d harness=%d\n",
+		nCases.Load(), nEval.Load(), nPrint.Load(), nCompile.Load(), nCacheHit.Load(), harnessErrs.Load())
 }
